@@ -12,7 +12,7 @@ Q, T = "quick", "thorough"
 # and the recursion of the code under test.  Unwinding assertions stay on.
 DEFAULT_UNWINDSET = {"poseidon_hash_many": 8, "from_bytes_be_slice": 34, "to_bytes_be": 10, "word_from_be32": 10,
                      "word_at": 10, "word_bytes": 10, "verif_uf::hash2": 40, "verif_uf::arith2": 40, "hi_zero_from": 10,
-                     "felt_core::shr": 6, "felt_core::shl": 6, "felt_core::low_bits": 6, "felt_core::mul_small": 18,
+                     "felt_core::reduce": 7, "felt_core::shr": 6, "felt_core::shl": 6, "felt_core::low_bits": 6, "felt_core::mul_small": 18,
                      "num_bigint": 10, "Hasher": 10}
 
 def e1(id, harness, bounds, desc, tier=Q, features=DF, timeout=900, witness=True, unwindset=None, mem=8):
@@ -155,8 +155,9 @@ PROPS["C04"] = dict(
     title="Merkle vector decommitment is complete and binding for all shapes",
     level="model_checking",
     obligations=[
-        _c04("bind", 1, 1, Q), _c04("bind", 2, 1, Q), _c04("bind", 2, 2, Q), _c04("complete", 2, 1, Q), _c04("complete", 2, 2, Q), _c04c(2, Q),
-        _c04("bind", 2, 2, Q, BLAKE, ".blake2s_248"), _c04("complete", 2, 2, Q, BLAKE, ".blake2s_248"),
+        _c04("bind", 1, 1, Q), _c04("bind", 2, 1, Q), _c04("complete", 2, 1, Q), _c04("complete", 2, 2, Q), _c04c(2, Q),
+        _c04("bind", 2, 1, Q, BLAKE, ".blake2s_248"), _c04("complete", 2, 1, Q, BLAKE, ".blake2s_248"),
+        _c04("bind", 2, 2, T), _c04("bind", 2, 2, T, BLAKE, ".blake2s_248"), _c04("complete", 2, 2, T, BLAKE, ".blake2s_248"),
         _c04("bind", 3, 1, T), _c04("bind", 3, 2, T), _c04("bind", 3, 3, T), _c04("complete", 3, 2, T), _c04("complete", 3, 3, T), _c04c(3, T), _c04c(1, T),
         _c04("bind", 2, 2, T, K248, ".keccak_248"), _c04("complete", 2, 2, T, K248, ".keccak_248"),
         _c04("bind", 2, 2, T, B160, ".blake2s_160"), _c04("complete", 2, 2, T, B160, ".blake2s_160"),
